@@ -4,10 +4,18 @@
 
    program = sequence of [op, id, kind, d]:
      "enter" id kind d   enter scope id; kind in {"move_on", "timeout", "open"}; deadline = now + d (d = INF: none)
-     "exit"  id          end of the body of scope id
+     "exit"  id kind     end of the body of scope id; kind = "raises": the body ends by raising an ordinary exception (ValueError) that is caught
+                         just outside the scope - it leaves the scope as it is, the scope catches nothing
      "sleep" d           blocking operation of d ticks (d = 0: a bare checkpoint)
      "cancel" id         scope id .cancel()            "resched" id d   scope id .reschedule(now + d)
      "shin" / "shout"    begin / end of a coroutine run under ignore_cancellation        "mark" id   observable progress
+     "startc" id k       a task group whose child is started with TaskGroup.start() (the child marks k and returns at once) while, from a
+                         callback, scope id .cancel() is called within the next few loop iterations; a few bare checkpoints follow.
+                         Whatever the exact iteration, the child's mark is seen and the body is abandoned before the next statement
+                         (unless shielded)
+     "startq" id d       (d = the scope whose cancel() is on its way)  TaskGroup.start() of a child that marks id and returns at once, with nothing else going on: a checkpoint for a
+                         cancellation that is already pending (then the child may be cancelled before it marks), otherwise it completes
+     "cancelq" id        scope id .cancel() called from a callback (no event of its own)
      "join" id d         a task group with one child task (sleep d ticks, d >= 1, then mark id): the parent waits at the end of the group;
                          for the parent this is a blocking operation of d ticks; if it is abandoned the child is cancelled with it
    ext = tick of the one external task.cancel() (INF: none).  Times are integer ticks.
@@ -72,7 +80,7 @@ Enter == /\ Running /\ Cur.op = "enter" /\ last' = Event("enter", Cur.id, FALSE,
 \* normal completion of a scope body: nothing is caught; cancel_called is what it is (either way on an exact deadline tie)
 ExitNormal(c) == /\ Running /\ Cur.op = "exit"
                  /\ LET f == stack[Len(stack)] IN (f.deadline # now \/ f.cc) => c = f.cc
-                 /\ last' = Event("exit", Cur.id, FALSE, c, "")
+                 /\ last' = Event("exit", Cur.id, FALSE, c, IF Cur.kind = "raises" THEN "ValueError" ELSE "")
                  /\ stack' = SubSeq(stack, 1, Len(stack) - 1)
                  /\ pc' = pc + 1 /\ UNCHANGED <<par, now, mode>>
 \* a blocking operation / checkpoint
@@ -105,6 +113,31 @@ Join == /\ Running /\ Cur.op = "join"
                      \/ /\ tc = te /\ now' = tc /\ mode' = "unwind" /\ pc' = pc /\ stack' = Fire(stack, tc) /\ last' = [done EXCEPT !.t = te]
                      \/ /\ tc >= te /\ now' = te /\ mode' = "run" /\ pc' = pc + 1 /\ stack' = Fire(stack, te) /\ last' = [done EXCEPT !.t = te]
         /\ UNCHANGED par
+\* (when the cancellation is already on its way as start() is called, the child is cancelled before its body runs: no mark)
+StartQ(seen, fired) ==
+                /\ Running /\ Cur.op = "startq"
+                /\ IF InShield \/ ~((\E k \in Visible : stack[k].cc) \/ ExtPending)
+                   THEN mode' = "run" /\ pc' = pc + 1 /\ seen /\ ~fired /\ UNCHANGED stack
+                   ELSE \* abandoned in start(): the callback that is on its way (scope Cur.kind's cancel()) may fire while the task unwinds
+                        /\ mode' = "unwind" /\ pc' = pc
+                        /\ stack' = [k \in 1..Len(stack) |-> IF fired /\ stack[k].t = "scope" /\ stack[k].id = Cur.d THEN [stack[k] EXCEPT !.cc = TRUE] ELSE stack[k]]
+                /\ last' = (IF seen THEN Event("mark", Cur.id, FALSE, FALSE, "") ELSE NoEv)
+                /\ UNCHANGED <<par, now>>
+CancelQ == /\ Running /\ Cur.op = "cancelq" /\ last' = NoEv
+           /\ stack' = [k \in 1..Len(stack) |-> IF stack[k].t = "scope" /\ stack[k].id = Cur.id THEN [stack[k] EXCEPT !.cc = TRUE] ELSE stack[k]]
+           /\ pc' = pc + 1 /\ UNCHANGED <<par, now, mode>>
+\* fired = the callback's cancel() happened before the body was abandoned (it always has when the construct completes normally)
+StartC(seen, fired) ==
+          /\ Running /\ Cur.op = "startc"
+          /\ LET st2 == [k \in 1..Len(stack) |-> IF fired /\ stack[k].t = "scope" /\ stack[k].id = Cur.id THEN [stack[k] EXCEPT !.cc = TRUE] ELSE stack[k]]
+                 before == (\E k \in Visible : stack[k].cc) \/ ExtPending
+                 hit == \E k \in Visible : st2[k].cc IN
+             /\ stack' = st2
+             /\ IF InShield \/ ~(hit \/ ExtPending)
+                THEN mode' = "run" /\ pc' = pc + 1 /\ seen /\ fired
+                ELSE mode' = "unwind" /\ pc' = pc /\ (~fired => before)
+          /\ last' = (IF seen THEN Event("mark", Cur.d, FALSE, FALSE, "") ELSE NoEv)
+          /\ UNCHANGED <<par, now>>
 \* a cancellation travelling outwards reaches the exit of the innermost frame
 Unwind(caught, c) ==
   /\ mode = "unwind" /\ Len(stack) > 0
@@ -133,7 +166,7 @@ EndCancelled == /\ mode = "unwind" /\ Len(stack) = 0 /\ Ext <= now
                 /\ last' = Event("end", 0, FALSE, FALSE, "CancelledError")
                 /\ mode' = "done" /\ UNCHANGED <<par, pc, now, stack>>
 
-Next == Mark \/ CancelOp \/ Resched \/ ShieldIn \/ ShieldOut \/ Enter \/ (\E c \in BOOLEAN : ExitNormal(c)) \/ Sleep \/ Join
+Next == Mark \/ CancelOp \/ Resched \/ ShieldIn \/ ShieldOut \/ Enter \/ (\E c \in BOOLEAN : ExitNormal(c)) \/ Sleep \/ Join \/ (\E seen, fired \in BOOLEAN : StartC(seen, fired)) \/ (\E seen, fired \in BOOLEAN : StartQ(seen, fired)) \/ CancelQ
         \/ (\E ca, c \in BOOLEAN : Unwind(ca, c)) \/ (\E n \in 0..1 : EndOk(n)) \/ EndCancelled
         \/ (mode = "done" /\ UNCHANGED vars)
 Spec == Init /\ [][Next]_vars /\ WF_vars(Next)
